@@ -6,10 +6,11 @@ from __future__ import annotations
 import contextlib
 from collections import ChainMap
 from functools import partial
-from typing import Any, ClassVar, Dict, List, Optional, Set, Type, cast
+from typing import Any, ClassVar, Dict, ForwardRef, List, Optional, Set, Type, cast
 
 import wrapt
 from pydantic import Extra, root_validator
+from pydantic.fields import SHAPE_SINGLETON
 
 from ..plugin.metaclass import PluginMetaclassMixin, UndefVersion
 from ..util import cache, is_public_name
@@ -457,11 +458,30 @@ def is_pub_instance_field(schema, name, hint):
     )
 
 
+def _retyped_without_hint(schema: Type[MetadataSchema], fname: str) -> bool:
+    """Return whether an inherited collection field turned into a single value without a new annotation.
+
+    This happens if a value is assigned in the class body (`field = value`),
+    pydantic then infers a new field from the value and only makes sure that
+    it fits to the innermost type of the inherited field.
+    """
+    if fname in get_annotations(schema):
+        return False
+    fld = schema.__fields__.get(fname)
+    parent_fld = schema.__base__.__fields__.get(fname)
+    if fld is None or parent_fld is None:
+        return False
+    if isinstance(fld.outer_type_, (str, ForwardRef)):
+        return False  # not analyzed yet
+    return fld.shape == SHAPE_SINGLETON and parent_fld.shape != SHAPE_SINGLETON
+
+
 def detect_field_overrides(schema: Type[MetadataSchema]):
     anns = get_annotations(schema)
     base_hints = cast(Any, schema._base_typehints)
     new_hints = {n for n, h in anns.items() if is_pub_instance_field(schema, n, h)}
-    return set(base_hints.keys()).intersection(new_hints)
+    retyped = {n for n in base_hints.keys() if _retyped_without_hint(schema, n)}
+    return set(base_hints.keys()).intersection(new_hints).union(retyped)
 
 
 def check_overrides(schema: Type[MetadataSchema]):
@@ -488,7 +508,9 @@ def check_overrides(schema: Type[MetadataSchema]):
         turned_optional = (
             fld and parent_fld and fld.allow_none and not parent_fld.allow_none
         )
-        if turned_optional or not is_subtype(hint, parent_hint):
+        if retyped := _retyped_without_hint(schema, fname):
+            hint = fld.outer_type_  # the type hint is still the inherited one
+        if turned_optional or retyped or not is_subtype(hint, parent_hint):
             parent = infer_parent(schema)
             parent_name = (
                 parent.Fields[fname]._origin_name
